@@ -1,1 +1,1 @@
-import RV.Proofs.SketchRow
+import RV.Props.C18
